@@ -247,7 +247,7 @@ def pepNumber (input : Bytes) : Int × Bytes :=
   let input := allowSeparator input
   let n := numericPrefixLen input
   if n == 0 then (0, input)
-  else (wrapInt64 (parseUint64Lossy (input.take n)), input.drop n)
+  else (wrapInt64 (parseUint63Lossy (input.take n)), input.drop n)
 
 structure PepState where
   v : Version
